@@ -1,18 +1,24 @@
-"""MANIFEST.setup_cmd: pre-compile the code-independent Lean libraries (PyModel, Spec)."""
+"""MANIFEST.setup_cmd: pre-compile the Lean libraries (PyModel, Spec, registered Contracts over the code
+extracted from /repo) so that the per-property checks start from a warm content-addressed cache.
+Nothing here decides anything: every check re-extracts and rebuilds whatever changed."""
 import sys, os, glob
-from . import leanbuild
+from . import leanbuild, registry, extract
+
 
 def main():
-    mods = []
-    for root in ("PyModel", "Spec"):
-        for f in sorted(glob.glob(os.path.join(leanbuild.LEAN_SRC, root, "*.lean"))):
-            mods.append(root + "." + os.path.basename(f)[:-5])
+    extract.write_generated(os.path.join(leanbuild.LEAN_SRC, "Generated"), os.environ.get("TUCAN_REPO", "/repo"))
+    mods = ["PyModel.Json"]
+    for f in sorted(glob.glob(os.path.join(leanbuild.LEAN_SRC, "Generated", "*.lean"))):
+        mods.append("Generated." + os.path.basename(f)[:-5])
+    used = sorted({registry.LEAN[k] for p in registry.PROPS.values() for k in p.get("lean", [])})
+    mods += used
     res = leanbuild.build(mods, verbose=True)
     bad = [r for r in res.values() if not r.ok]
     for r in bad:
         print("FAILED", r.mod)
         print(r.output[:4000])
     return 1 if bad else 0
+
 
 if __name__ == "__main__":
     sys.exit(main())
